@@ -160,5 +160,21 @@ PROPS["C08"] = {
     "technique": "Lean 4 proof over a decision model of stateLost + differential check of the real handler with virtual time",
 }
 
+PROPS["C04"] = {
+    "lean": ["MysyncProofs.C04"],
+    "go": [("internal/app", "^TestVerifC04$")],
+    "level": "proof",
+    "components": ["MysyncModel/App/ActiveNodes.lean (calcActiveNodes incl. the NodeFailedAt timers, calcActiveNodesChanges incl. calcLagBytes and slaveReadPositions, updateActiveNodes in both adjust orders as a sequential procedure with a failure oracle, canShrinkActiveNodes, adjustSemiSyncOnMaster, enable/disableSemiSyncOnSlave, the semi-sync world with invariants (a) and (b))",
+                   "MysyncModel/Generated/SwitchHelper.lean (regenerated)", "MysyncModel/GtidParse.lean, Gtid.lean"],
+    "trusted": ["T4 fake MySQL semantics of the semi-sync variables (SET GLOBAL rpl_semi_sync_*), replication thread statements, SHOW BINARY LOGS",
+                "observer c04trace mapping statement groups to the model's call vocabulary", "interface-level fake DCS"],
+    "rule": "random transitions of a 2-6 node cluster (incl. an optional cascade replica): per replica {member or not before, semi-sync flag on/off} x situation {healthy, behind/equal/ahead, dead < delay, dead >= delay, dead without timer +- health lock, dubious, stopped, error, diverged, lost master, download lag with/without IO progress, marked for recovery} x master semi-sync state consistent or not with the old list x both adjust orders x configured count 1-3 x semi-sync off x a single failing call (9 statement kinds, either master ping) x failing publication / recovery listing. (a) and (b) are evaluated on EVERY PREFIX of the real call trace in the Lean semi-sync world (a crash point is a prefix). distinct = distinct record; non-trivial = the procedure issued at least one call",
+    "assumptions": ["E1 exclusive control: only mysync changes semi-sync variables"],
+    "min_lines": 2500,
+    "level_text": "Theorems over the model: membership rule (who can be a member, never adds unreachable hosts, master always), download-lag gate, eviction needs a successful master ping, nothing on a failed first ping, publication last, failed enables are not published, (a)/(b) after a complete fault-free iteration (partial: (b) without data-lagging replicas). The crash-point / failed-call clause is FALSE on the pinned tree: five classes of breaker sites are proved as machine-checked witnesses in the model, reproduced on the real code by the prefix monitor, and recorded in known_findings.json (design-level, not patched). Any OTHER destruction of (a)/(b), any membership violation, any eviction without ping and any deviation of the real call trace from the model is an alarm.",
+    "level_note": "Trusted: Lean kernel; fake server/DCS semantics; the trace observer. Known findings are matched by signature (invariant, breaker class), so a different breaker is still reported.",
+    "technique": "Lean 4 proof + machine-checked counter-witnesses over a procedure model with failure oracle; prefix-closed invariant monitor on real traces",
+}
+
 _todo = "machinery for this property is not built yet in this round; planned per DESIGN.md §7/§10 (no claim is made until its check exists)"
 NOT_APPLICABLE = {("C%02d" % i): _todo for i in range(1, 21)}
